@@ -268,6 +268,10 @@ fn select_programs(ctx: &Ctx, uni: &Universe) -> Vec<Program> {
             push(&q, q.text(), "counts0123", "tag-shapes", full_bound - 1, &mut out);
         }
     }
+    // folds importing two tags (needs two edges and two tag deviations first): see qgen::two_tag_fold_shapes
+    for q in qgen::two_tag_fold_shapes(sm) {
+        push(&q, q.text(), "diamond", "two-tag-fold-shapes", full_bound - 1, &mut out);
+    }
     out
 }
 
@@ -278,9 +282,10 @@ pub fn run(ctx: &Ctx) -> ! {
     programs.sort_by_key(|p| match p.origin {
         "handpicked" => 0,
         "tag-shapes" => 1,
-        "three-edge-structures" => 2,
-        "signature-representative" => 3,
-        _ => 4,
+        "two-tag-fold-shapes" => 2,
+        "three-edge-structures" => 3,
+        "signature-representative" => 4,
+        _ => 5,
     });
     let bound = ctx.tier.pick(2usize, 3usize);
     let by_origin: Mutex<BTreeMap<String, (u64, u64)>> = Mutex::new(BTreeMap::new());
